@@ -318,7 +318,7 @@ func TestVerifC18Cons(t *testing.T) {
 	if run.Thorough() {
 		kinds = []kind{{0, ""}, {8, ""}, {15, "555"}, {16, "565"}, {24, "rgb888"}, {24, "bgr888"}, {32, "rgb888"}, {32, "bgr888"}}
 		fonts = []string{"synth8x2", "synth9x2", "terminus8x16", "terminus10x18", "terminus14x28"}
-		depth, depthBig = 6, 5
+		depth, depthBig = 6, 4
 	}
 	events := []byte{'a', 'b', '\r', '\n', '\b', '\t', 'A', 'I'}
 	idx := 0
@@ -343,6 +343,9 @@ func TestVerifC18Cons(t *testing.T) {
 							c.Font = ""
 						}
 						d := depth
+						if run.Thorough() && k.bpp != 0 && (k.bpp == 15 || k.mask == "bgr888" || plr[0] != 0 && wh[0]*wh[1] > 3) {
+							d = depth - 1 // the extra pixel formats and the padded larger grids one level shallower
+						}
 						if k.bpp != 0 && vfFont(fn).GlyphHeight > 2 {
 							d = depthBig
 							if wh[1] == 3 {
